@@ -159,7 +159,10 @@ inductive IntArith where
 
 /-- normalised structure of the three kernels as found (see `normalise_kernel` in
 harness/props/c13.py: parameters by position X, Y, OUT; loop variables L0, L1 by nesting depth;
-scalar temporaries inlined, typed arithmetic temporaries kept as `<type>(…)`; comments, docstrings,
+size scalars (`len`, `.shape[k]`) inlined, every other typed temporary kept as `<type>(…)`;
+loop variables of a type other than `long`/`Py_ssize_t` tagged `idx:`; asserts tagged by position
+(`guard@pre` = before the first loop); module-level `# cython:` directives and `with cython.…` blocks
+as `dec:` tags; comments, docstrings,
 messages, declaration order, `while` counting loops and `with nogil:` grouping normalised away) -/
 def nativeKernels : List (String × List String) :=
   [("_euclidean", ["dec:boundscheck(False)",
@@ -167,8 +170,8 @@ def nativeKernels : List (String × List String) :=
       "arg:X:FLOAT_TYPE_T:2",
       "arg:Y:FLOAT_TYPE_T:1",
       "arg:OUT:float64:1",
-      "guard:len(OUT)==X.shape[0]",
-      "guard:len(Y)==X.shape[1]",
+      "guard@pre:len(OUT)==X.shape[0]",
+      "guard@pre:len(Y)==X.shape[1]",
       "loop:0|prange|len(OUT)",
       "write:1||OUT[L0]=0",
       "loop:0|prange|len(OUT)",
@@ -182,8 +185,8 @@ def nativeKernels : List (String × List String) :=
       "arg:X:INTEGRAL_TYPE_T:2",
       "arg:Y:INTEGRAL_TYPE_T:1",
       "arg:OUT:float64:1",
-      "guard:len(OUT)==X.shape[0]",
-      "guard:len(Y)==X.shape[1]",
+      "guard@pre:len(OUT)==X.shape[0]",
+      "guard@pre:len(Y)==X.shape[1]",
       "loop:0|prange|len(OUT)",
       "write:1||OUT[L0]=0",
       "loop:1|range|len(Y)",
@@ -195,8 +198,8 @@ def nativeKernels : List (String × List String) :=
       "arg:X:FLOAT_TYPE_T:2",
       "arg:Y:FLOAT_TYPE_T:1",
       "arg:OUT:float64:1",
-      "guard:len(OUT)==X.shape[0]",
-      "guard:len(Y)==X.shape[1]",
+      "guard@pre:len(OUT)==X.shape[0]",
+      "guard@pre:len(Y)==X.shape[1]",
       "loop:0|prange|len(OUT)",
       "write:1||OUT[L0]=0",
       "loop:0|prange|len(OUT)",
@@ -211,8 +214,8 @@ def repairedKernels : List (String × List String) :=
       "arg:X:FLOAT_TYPE_T:2",
       "arg:Y:FLOAT_TYPE_T:1",
       "arg:OUT:float64:1",
-      "guard:len(OUT)==X.shape[0]",
-      "guard:len(Y)==X.shape[1]",
+      "guard@pre:len(OUT)==X.shape[0]",
+      "guard@pre:len(Y)==X.shape[1]",
       "loop:0|prange|len(OUT)",
       "write:1||OUT[L0]=0",
       "loop:0|prange|len(OUT)",
@@ -227,8 +230,8 @@ def repairedKernels : List (String × List String) :=
       "arg:X:INTEGRAL_TYPE_T:2",
       "arg:Y:INTEGRAL_TYPE_T:1",
       "arg:OUT:float64:1",
-      "guard:len(OUT)==X.shape[0]",
-      "guard:len(Y)==X.shape[1]",
+      "guard@pre:len(OUT)==X.shape[0]",
+      "guard@pre:len(Y)==X.shape[1]",
       "loop:0|prange|len(OUT)",
       "write:1||OUT[L0]=0",
       "loop:1|range|len(Y)",
@@ -240,8 +243,8 @@ def repairedKernels : List (String × List String) :=
       "arg:X:FLOAT_TYPE_T:2",
       "arg:Y:FLOAT_TYPE_T:1",
       "arg:OUT:float64:1",
-      "guard:len(OUT)==X.shape[0]",
-      "guard:len(Y)==X.shape[1]",
+      "guard@pre:len(OUT)==X.shape[0]",
+      "guard@pre:len(Y)==X.shape[1]",
       "loop:0|prange|len(OUT)",
       "write:1||OUT[L0]=0",
       "loop:0|prange|len(OUT)",
@@ -264,12 +267,11 @@ def modelledTrace (kernel : String) : List (String × String) :=
    ("call", kernel ++ "(X, Y, np.zeros(X.shape[0], dtype=np.float64) if OUT is None else OUT)"),
    ("return", "np.zeros(X.shape[0], dtype=np.float64) if OUT is None else OUT")]
 
-/-- a generated trace is acceptable when it contains the modelled events in the modelled order,
-and everything it contains beyond them is a further validation predicate (`raise`) -/
+/-- a generated trace is acceptable exactly when it IS the modelled one: the modelled validation
+predicates in the modelled order, nothing else (no further `raise`, which could reject valid input;
+no `effect` statement, which could touch the caller's data), then the kernel call and the return -/
 def traceOk (wrapper kernel : String) : Bool :=
-  let g := (Gen.wrapperTraces.lookup wrapper).getD []
-  (modelledTrace kernel).isSublist g &&
-  (g.filter (fun e => e.1 != "raise") == (modelledTrace kernel).filter (fun e => e.1 != "raise"))
+  (Gen.wrapperTraces.lookup wrapper).getD [] == modelledTrace kernel
 
 /-- the arithmetic the current source uses -/
 def intArith : IntArith :=
